@@ -318,6 +318,12 @@ def check(case, ctx):
         try:
             apply_prefs(prefs)
             out = d.cssText
+            if not prefs.get('__minified__'):
+                # the constructor is the other documented way to set preferences
+                built = cssutils.serialize.Preferences(**{k: v for k, v in prefs.items() if not k.startswith('__')})
+                diff = [k for k in prefs if not k.startswith('__') and getattr(built, k) != getattr(cssutils.ser.prefs, k)]
+                if diff:
+                    raise Violation('prefs:constructor-ignores-value', f'Preferences(**{prefs}) leaves {[(k, getattr(built, k)) for k in diff]}')
             nodes = []
 
             def collect(rules):
@@ -327,6 +333,8 @@ def check(case, ctx):
                         collect(r.cssRules)
 
             collect(d.cssRules)
+        except Violation:
+            raise
         except Exception as e:  # noqa: BLE001
             raise Violation('crash:serialise:' + frame_sig(e), f'prefs {prefs}: {text[:300]!r}: {e!r}')
         finally:
